@@ -22,7 +22,7 @@ type pk = { tsi : n; close : bool; kind : string }
 let x_tsi (p : pk) = p.tsi
 let x_close (p : pk) = p.close
 let x_init (_ : key) = ()
-let x_push () (p : pk) (_ : z) = ((), (match p.kind with "E" | "D" -> "err" | "K" | "C" -> "ok" | _ -> ""))
+let x_push () (p : pk) (_ : z) = ((), (match p.kind with "E" | "D" -> "err" | "K" | "C" | "O" -> "ok" | _ -> ""))
 let x_cleanup () (_ : z) = ((), "")
 let x_drop () = ""
 let step st op = mstep x_tsi x_close x_init x_push x_cleanup x_drop st op
@@ -53,7 +53,7 @@ let parse_op (tok : string) : lop =
   | ["C"] -> { none with mk = (fun closed _ -> Some (OCleanup (Z0, (fun k -> if closed k then big else nbig)))); kind = "cleanup" }
   | ["Y"] -> none
   | ["pX"; e] -> { none with mk = mk_push (parse_ep e) None; kind = "X" }
-  | [("pE" | "pK" | "pC" | "pD") as k; e; t] ->
+  | [("pE" | "pK" | "pC" | "pD" | "pO") as k; e; t] ->
     let ep = parse_ep e and tsi = h t in
     let kind = String.sub k 1 1 in
     { tok; mk = mk_push ep (Some { tsi; close = (kind = "C" || kind = "D"); kind }); push_key = Some (ep, tsi); kind }
